@@ -1,6 +1,7 @@
 import Driver.Store
 import NixModel.Lemmas.C04Bfs
 import NixModel.Store.C04Ext
+import NixModel.Store.CopyFrames
 open Lean Nix.Store
 
 namespace Driver.C04
@@ -20,7 +21,8 @@ def fuelOk (g : Graph) (c : Cont) (key : Key) : Bool :=
 
 /-- C04 is decided on the structural (HDF5 graph) model: the protocol of `Driver.Store`, plus
 `["fuel_ok", owner, cname, key]`, `["create_df", block, name]` (`Block.create_data_frame(name, "t", …)`) and
-`["dim_link", array, target]` (a new range dimension of `array` linked to `target`) -/
+`["dim_link", array, target]` (a new range dimension of `array` linked to `target`), and the copies within the
+file `copy_block` / `copy_into` / `copy_section` / `copy_property` -/
 def step (g : Graph) (j : Json) : Graph × Json :=
   match (Driver.jArr j).toList with
   | [.str "fuel_ok", pj, .str cname, kj] =>
@@ -39,6 +41,36 @@ def step (g : Graph) (j : Json) : Graph × Json :=
     match Driver.Store.parsePath aj, Driver.Store.parsePath tj with
     | some a, some t => Driver.Store.applyG g (dimLink g a t)
     | _, _ => (g, Driver.bad "path")
+  -- copies within the file (the protocol of `Driver.Store2` without the source-file index): after an id-keeping
+  -- copy two objects carry one `entity_id` — the histories then delete on either side
+  | [.str "copy_block", sp, .str name, .bool keep] =>
+    match Driver.Store.resolveKey g sp with
+    | some k => Driver.Store.applyG g (copyBlock g g k name keep)
+    | none => (g, Driver.bad "source path")
+  | [.str "copy_into", dp, .str what, sp, .str name, .bool keep] =>
+    match Driver.Store.parsePath dp, Driver.Store.resolveKey g sp with
+    | some dpath, some k => Driver.Store.applyG g (copyIntoBlock g g dpath what k name keep)
+    | _, _ => (g, Driver.bad "paths")
+  | [.str "copy_section", dp, sp, .bool children, .bool keep, .str name] =>
+    let dest : Option (Option Path) :=
+      if Driver.isNull dp then some none else (Driver.Store.parsePath dp).map some
+    match dest, Driver.Store.resolveKey g sp with
+    | some d, some k => Driver.Store.applyG g (copySection g g d k children keep name)
+    | _, _ => (g, Driver.bad "paths")
+  | [.str "copy_property", dp, sp, .str name, .bool keep] =>
+    match Driver.Store.resolveKey g dp, Driver.Store.resolveKey g sp with
+    | some d, some k => Driver.Store.applyG g (copyProperty g g d k name keep)
+    | _, _ => (g, Driver.bad "paths")
+  -- `SourceLinkContainer.append` tests the source *object* (fix a440b8d): differs from the id test of the shared
+  -- `contAppend` only after an id-keeping copy (`Props/C20.contAppend20_refines`)
+  | [.str "append", pj, .str cname, kj] =>
+    match Driver.Store.parsePath pj with
+    | none => (g, Driver.bad "path")
+    | some p =>
+      match openCont g p cname, Driver.Store.parseKey g kj with
+      | some c, some key => Driver.Store.applyG g (contAppend20 g c key)
+      | none, _ => (g, Driver.bad "container")
+      | _, none => (g, Driver.bad "key")
   | _ => Driver.Store.step g j
 
 def main : IO Unit := Driver.loop ({} : Graph) step
